@@ -121,6 +121,8 @@ def check(ctx):
     facts = {f.text: f for f in he.facts()}
     ctx.inst('R3', fcb, 'hit-requires-truthy-result', cvar in facts and facts[cvar].pol is True, 'a falsy cache result (None / unparsable / empty) must not be adopted')
     cached_table_adoption_rule(ctx, 'R3')
+    from .c03 import fetcher_unsubscribe_rules
+    fetcher_unsubscribe_rules(ctx, 'R2')      # what is stored under a checksum was downloaded in ONE session: a fetcher aborted by close / link loss does not go on in the next (shared with C03.R9)
     reqs = gf.find(lambda n: method_call(n, '_request_toc_element'))
     ctx.inst('R3', fcb, 'hit-requests-nothing', all(('e', he.id) not in gf.dom()[('n', n.id)] for n, _ in reqs), 'a cache hit must not request elements')
     miss_req = [n for n, _ in reqs if ('e', me.id) in gf.dom()[('n', n.id)]]
